@@ -260,6 +260,20 @@ func (c *Client) Wait() error {
 	return c.group.Wait()
 }
 
+// ErrTerminated is returned by a pending API call if the client is terminated
+// (Close, Disconnect or a DISCONNECT packet from the gateway) before the call
+// is completed.
+var ErrTerminated = errors.New("client terminated")
+
+// terminated waits until the client terminates and returns the reason.
+// An interrupted API call must not return nil: its packet was not acknowledged.
+func (c *Client) terminated() error {
+	if err := c.group.Wait(); err != nil {
+		return err
+	}
+	return ErrTerminated
+}
+
 // Close closes the connection with the MQTT-SN gateway. The client sends
 // a DISCONNECT packet before closing the connection.
 func (c *Client) Close() error {
@@ -334,7 +348,7 @@ func (c *Client) Connect() error {
 				return err
 			}
 		case <-c.groupCtx.Done():
-			return c.group.Wait()
+			return c.terminated()
 		}
 	}
 
@@ -356,7 +370,7 @@ func (c *Client) Register(topic string) error {
 	case <-transaction.Done():
 		return transaction.Err()
 	case <-c.groupCtx.Done():
-		return c.group.Wait()
+		return c.terminated()
 	}
 }
 
@@ -374,7 +388,7 @@ func (c *Client) subscribe(topicName string, topicIDType uint8, topicID uint16, 
 	case <-transaction.Done():
 		return transaction.Err()
 	case <-c.groupCtx.Done():
-		return c.group.Wait()
+		return c.terminated()
 	}
 }
 
@@ -409,7 +423,7 @@ func (c *Client) unsubscribe(topicName string, topicIDType uint8, topicID uint16
 	case <-transaction.Done():
 		return transaction.Err()
 	case <-c.groupCtx.Done():
-		return c.group.Wait()
+		return c.terminated()
 	}
 }
 
@@ -458,7 +472,7 @@ func (c *Client) publish(topicIDType uint8, topicID uint16, qos uint8, retain bo
 	case <-transaction.Done():
 		return transaction.Err()
 	case <-c.groupCtx.Done():
-		return c.group.Wait()
+		return c.terminated()
 	}
 }
 
@@ -507,7 +521,7 @@ func (c *Client) Ping() error {
 	case <-transaction.Done():
 		return transaction.Err()
 	case <-c.groupCtx.Done():
-		return c.group.Wait()
+		return c.terminated()
 	}
 }
 
@@ -522,7 +536,7 @@ func (c *Client) Sleep(duration time.Duration) error {
 	case <-transaction.Done():
 		return transaction.Err()
 	case <-c.groupCtx.Done():
-		return c.group.Wait()
+		return c.terminated()
 	}
 }
 
